@@ -364,6 +364,19 @@ def _merge_fmt(path):
     return " ; ".join(x[1] if x[0] == "raw" else ("fmt(tpl:%r; %s)" % (x[1], ", ".join(x[2])) if x[2] else "fmt(tpl:%r)" % (x[1],)) for x in out)
 
 
+_VIEW_STEP = None
+
+
+def _drop_views(ev):
+    """`self.as_str()` / `as_ref()` / `deref()` / `borrow()` on the way from a field to what is written only change the view of the
+    same text: dropped from the descriptor (`<f:self|fn:as_bytes|fn:String::as_str|fn:escape_argument>` == without `as_str`)"""
+    global _VIEW_STEP
+    import re as _re
+    if _VIEW_STEP is None:
+        _VIEW_STEP = _re.compile(r"\|fn:(?:String|str|<impl str>|Cow(?:<[^|>]*>)?|AsRef|Deref|Borrow)::(?:as_str|as_ref|deref|borrow)(?=[|>])")
+    return _VIEW_STEP.sub("", ev)
+
+
 def render_rule(rep, prog, cfg, only=None):
     rule = "C15.render"
     n = 0
@@ -377,7 +390,7 @@ def render_rule(rep, prog, cfg, only=None):
         # what is written may go through a private helper of the module (`render_escaped`) or through the renderer of the wrapped
         # value (`self.0.render(buf)` for a newtype): spliced in (A12), so that the write events are those of the whole renderer
         sh, problems = render_shapes(prog, b)
-        got = sorted(" ; ".join(x) for x in sh)
+        got = sorted(_drop_views(" ; ".join(x)) for x in sh)
         exp = RENDER_EXPECT.get(name)
         if exp is not None and (problems or got != sorted(exp)):
             from ..inline import inlined, module_private_helpers
@@ -385,7 +398,7 @@ def render_rule(rep, prog, cfg, only=None):
             b2 = inlined(prog, b, lambda cb: base_want(cb) or norm(cb.name).endswith(" as mpd_protocol::command::Argument>::render"), depth=2)
             if b2.raw.get("inlined"):
                 sh2, problems2 = render_shapes(prog, b2)
-                got2 = sorted(" ; ".join(x) for x in sh2)
+                got2 = sorted(_drop_views(" ; ".join(x)) for x in sh2)
                 if not problems2 and got2 == sorted(exp):
                     sh, problems, got = sh2, problems2, got2
         if exp is None:
